@@ -1,0 +1,16 @@
+//go:build verif
+
+// Constructors used only by the deterministic-simulation harness (build tag verif).
+package configuration
+
+import (
+	"github.com/onosproject/onos-config/pkg/southbound/gnmi"
+	"github.com/onosproject/onos-config/pkg/store/topo"
+	configurationstore "github.com/onosproject/onos-config/pkg/store/v3/configuration"
+)
+
+func NewReconcilerForVerif(t topo.Store, c gnmi.ConnManager, cfg configurationstore.Store) *Reconciler {
+	return &Reconciler{conns: c, topo: t, configurations: cfg}
+}
+func NewWatcherForVerif(c configurationstore.Store) *Watcher { return &Watcher{configurations: c} }
+func NewTopoWatcherForVerif(t topo.Store) *TopoWatcher       { return &TopoWatcher{topo: t} }
